@@ -11,7 +11,7 @@ from ..core import Part, Violation, guard
 RULE = ("Hypothesis-generated synthetic rulesets without Markov (tie-heavy probability pools emphasised) run through the real "
         "pcfg_guesser.main() in-process: an explicit 'q' is delivered by the harness-owned keyboard so that it is noticed right "
         "after the k-th pop, the real .sav is written, and a second real main() --load resumes. EVERY cut k=1..|U| of each "
-        "ruleset is tried (exhaustive per ruleset); a second part generates histories of up to 5 quit/resume cycles. "
+        "ruleset is tried (exhaustive per ruleset); a second part generates histories of up to 5 quit/resume cycles; a third part runs quit histories on rulesets WITH Markov levels through the shared history oracle; a fourth checks the UUID refusal. "
         "Non-trivial = the cut leaves an un-emitted node that has >=2 parents, or another pre-terminal ties with the saved "
         "probability; distinct = hash of (model, flags, cut or cut list).")
 ASSUMPTIONS = ["the quit is an explicit 'q' line; it is noticed at the next pre-terminal boundary (C12 covers other stdin events)",
